@@ -231,6 +231,14 @@ def run(repo, chk):
         ok = not lb and len(calls) == 1 and any(k.arg == "intercept" for k in calls[0].keywords) and is_name(calls[0].args[0], "sel")
         chk.ob("R04.6", f"overlay.Overlay.{m}:one-intercept-per-selector-bound-at-construction", ok, fi.where,
                f"{m}() builds Immediate(selector, intercept=...) for every entry, each closure holding its own value" + (f" -- {lb}" if lb else ""))
+    from .shared import default_of
+    for q_ in ("overlay.Overlay.rewrite", "overlay.Overlay.rewriting"):
+        chk.ob("R04.6", f"{q_}:full-defaults-to-False", default_of(repo, q_, "full") == "False", repo.func(q_).where,
+               f"a rewriter function receives the plain values of the captured variables unless full=True is asked for (default of `full` in {q_}: {default_of(repo, q_, 'full')})")
+    rw = repo.func("overlay.Overlay.rewrite")
+    passes = [c for c in ast.walk(rw.node) if isinstance(c, ast.Call) and is_name(c.func, "_wrapfn")]
+    chk.ob("R04.6", "overlay.Overlay.rewrite:full-flag-handed-to-the-wrapper", bool(passes) and all(any(k.arg == "full" and is_name(k.value, "full") for k in c.keywords) or
+           (len(c.args) == 2 and is_name(c.args[1], "full")) for c in passes), rw.where, "the wrapper around each rewriter is told the caller's `full` flag")
     oe = repo.func("probe.OverridableProbe._emit")
     foe = facts_of(oe)
     rs_, ps_, rt_ = foe.find("self._value = ABSENT", exactly=[]), [n for t, c, n in foe.starting("super()._emit(") if isinstance(n, ast.Call) and not c], foe.find("return self._value", exactly=[])
